@@ -3,6 +3,7 @@ CONSTANTS
   SpinSync = FALSE
   ObliqOn = TRUE
   NVals = 2
+  NLayers = 1
   Bug = "no_compl_on_freq"
 INVARIANT C13_Fresh_Layered
 INVARIANT SyncHolds
